@@ -1194,6 +1194,10 @@ pub(crate) fn check_continuous_headers(headers: &[HeaderView]) -> Result<(), Sta
     Ok(())
 }
 
+/// The MMR library computes sizes and positions as roughly `2 * (number + 1)` and shifts by
+/// the tree height: with at most 2^62 - 1 leaves nothing overflows.
+const MAX_PROVABLE_BLOCK_NUMBER: BlockNumber = (BlockNumber::MAX >> 2) - 1;
+
 pub(crate) fn verify_mmr_proof<'a, T: Iterator<Item = &'a HeaderView>>(
     mmr_activated_epoch: EpochNumber,
     last_header: &VerifiableHeader,
@@ -1215,8 +1219,20 @@ pub(crate) fn verify_mmr_proof<'a, T: Iterator<Item = &'a HeaderView>>(
         return Err(StatusCode::InvalidProof.with_context(errmsg));
     };
     let parent_chain_root = last_header.parent_chain_root();
+    // MMR sizes and positions are about twice the (peer-supplied) block numbers, computed in
+    // u64 with overflow checks: refuse numbers for which that arithmetic does not fit.
+    let end_number: BlockNumber = parent_chain_root.end_number().unpack();
+    let headers = headers.collect::<Vec<_>>();
+    if let Some(number) = std::iter::once(end_number)
+        .chain(headers.iter().map(|header| header.number()))
+        .find(|number| *number > MAX_PROVABLE_BLOCK_NUMBER)
+    {
+        let errmsg = format!("failed to verify the proof since block#{number} is out of range");
+        return Err(StatusCode::InvalidProof.with_context(errmsg));
+    }
+    let headers = headers.into_iter();
     let proof: MMRProof = {
-        let mmr_size = leaf_index_to_mmr_size(parent_chain_root.end_number().unpack());
+        let mmr_size = leaf_index_to_mmr_size(end_number);
         let proof = raw_proof
             .iter()
             .map(|header_digest| header_digest.to_entity())
